@@ -371,9 +371,22 @@ func c11Run(s *sim.Sim, p *sim.Params) {
 			}
 		}
 	}
-	pressureRun := s.Choose(sim.SWork, 25) == 0
+	pressureRun := s.Choose(sim.SWork, 16) == 0
 	if pressureRun {
 		s.Probe("limiter-table-pressure-run")
+		// with the table at capacity every request may trigger an eviction pass: clients drain
+		// their bucket, pause for a few token intervals and come back with another burst
+		for i := range plans {
+			if s.Choose(sim.SWork, 2) == 0 {
+				tok := y0.window / time.Duration(y0.n)
+				plans[i].conform = false
+				plans[i].plan = []c11arrival{
+					{count: 2*y0.n + 1},
+					{gap: tok * time.Duration(2+s.Choose(sim.SWork, 3)), count: 2*y0.n + 1, par: s.Choose(sim.SWork, 2) == 0},
+					{gap: tok + tok/2, count: y0.n + 1},
+				}
+			}
+		}
 		pressure(y)
 	}
 	var hs []*sim.Handle
